@@ -307,6 +307,26 @@ def find_cons_violation(orig, scfg):
                 if t != s and t in orig:
                     return {"clause": "successor-reordered-or-swapped", "block": n,
                             "position": i, "before": s, "after": t}
+                if t != s and fl.is_region(fl.node[t]):
+                    # renamed to a region: it must enclose the old successor
+                    x, ok = s, False
+                    for _ in range(len(fl.node) + 2):
+                        par = fl.parent.get(x)
+                        if par is None or par.name not in fl.node:
+                            break
+                        if par.name == t:
+                            ok = True
+                            break
+                        x = par.name
+                    if not ok:
+                        # ... or be entered at an inserted block (an inserted block that was wrapped afterwards)
+                        try:
+                            ok = fl.enter_flat(t).name not in orig
+                        except Stuck:
+                            ok = False
+                    if not ok:
+                        return {"clause": "successor-renamed-to-a-region-that-does-not-enclose-it", "block": n,
+                                "position": i, "before": s, "after": t}
     for n, b in fl.node.items():
         if not fl.is_region(b) and not isinstance(b, SyntheticBlock) and n not in orig:
             return {"clause": "non-synthetic-block-added", "block": n, "class": type(b).__name__}
